@@ -123,7 +123,8 @@ func (s *LinkedLog) Read(offset uint64) ([]OffsetAndSizeAndSlot, indexes.OffsetA
 	if n <= 0 {
 		return nil, indexes.OffsetAndSize{}, errors.New("invalid compacted indexes length")
 	}
-	return s.ReadWithSize(offset, compactedIndexesLen)
+	// ReadWithSize expects the size of the whole record (length prefix included).
+	return s.ReadWithSize(offset, compactedIndexesLen+uint64(n))
 }
 
 func sizeOfUvarint(n uint64) int {
